@@ -2,6 +2,8 @@ package sym
 
 import (
 	"fmt"
+	"os"
+	"strings"
 	"go/types"
 	"math/big"
 	"sort"
@@ -442,6 +444,13 @@ func (e *Exec) mergeVal(c *Term, a, b Val) Val {
 		}
 		if xs, ok := a.(*StrV); ok {
 			if ys, ok := b.(*StrV); ok {
+				if xs.Sym == nil && ys.Sym == nil && (strings.Contains(xs.Conc, "@i:") || strings.Contains(xs.Conc, "@f:") || strings.Contains(ys.Conc, "@i:") || strings.Contains(ys.Conc, "@f:")) {
+					// texts that carry numeric tokens are never merged byte by byte (the token would be destroyed)
+					if m := e.canonStrIte(c, a, b); m != nil {
+						return m
+					}
+					return &StrIte{C: c, A: a, B: b}
+				}
 				xb, yb := e.strBytes(xs), e.strBytes(ys)
 				if len(xb) == len(yb) {
 					out := make([]*Term, len(xb))
@@ -817,6 +826,9 @@ func (e *Exec) mergeSlices(c *Term, x, y *SliceV) Val {
 
 // canonStrIte merges conditional concrete strings into the canonical chain form (nil: not applicable).
 func (e *Exec) canonStrIte(c *Term, a, b Val) Val {
+	if os.Getenv("VERIF_NOCANON") != "" {
+		return nil
+	}
 	type alt struct {
 		text string
 		cond *Term
